@@ -1,11 +1,156 @@
 (* Props/C19.v — the property theorems of C19 and nothing else.
-   C19: audit and error logging record exactly what happened, once, intact. *)
+   C19: audit and error logging record exactly what happened, once, intact.
+   [rel] is the relevant-status regexp (Go's regexp), a parameter of every statement. *)
 From Coq Require Import Permutation.
 From Verif Require Import Base Audit AuditProofs.
 
 (* the coded nesting of conditions of ProcessLogging is the documented table, for every engine mode,
-   rule flag, pattern configuration, status and interruption kind; rel is the relevant-status regexp *)
+   rule flag, pattern configuration, status and interruption kind *)
 Theorem C19_decision_table : forall (rel : bytes -> bool) c t,
   should_audit rel c t = audit_table rel c t.
 Proof. exact should_audit_table. Qed.
 Print Assumptions C19_decision_table.
+
+(* the table row by row: On -> always; Off -> never; RelevantOnly with a pattern -> the status matches;
+   RelevantOnly without a pattern -> a rule asked for it *)
+Theorem C19_decision_rows : forall (rel : bytes -> bool) c t,
+  (t_ae t = AEOn -> audit_table rel c t = true)
+  /\ (t_ae t = AEOff -> audit_table rel c t = false)
+  /\ (t_ae t = AERelevant -> c_pattern c = true -> audit_table rel c t = rel (status_of t))
+  /\ (t_ae t = AERelevant -> c_pattern c = false -> audit_table rel c t = t_audit t).
+Proof. exact audit_table_rows. Qed.
+Print Assumptions C19_decision_rows.
+
+(* the status consulted is the real interruption's, else the would-be (DetectionOnly) one's, else the
+   response status *)
+Theorem C19_status_source : forall t,
+  (forall s, t_intr t = Some s -> status_of t = itoa s)
+  /\ (forall s, t_intr t = None -> t_det t = Some s -> status_of t = itoa s)
+  /\ (t_intr t = None -> t_det t = None -> status_of t = t_resp t).
+Proof. exact status_of_cases. Qed.
+Print Assumptions C19_status_source.
+
+(* a finished transaction writes exactly one record when the table says so, none otherwise — for every
+   configuration, rule set (any ctl:auditEngine / ruleEngine / auditLogParts inside) and connector script *)
+Theorem C19_one_record_per_tx : forall (rel : bytes -> bool) c x,
+  length (o_records (run_tx rel c x)) = if audit_table rel c (run_phases c x) then 1%nat else 0%nat.
+Proof. exact one_record_per_tx. Qed.
+Print Assumptions C19_one_record_per_tx.
+
+(* over a sequence of transactions: the ids in the audit log are exactly the selected transactions *)
+Theorem C19_log_of_transactions : forall (rel : bytes -> bool) c xs,
+  map rc_id (flat_map (fun x => o_records (run_tx rel c x)) xs)
+  = map x_id (filter (fun x => audit_table rel c (run_phases c x)) xs).
+Proof. exact log_of_txs. Qed.
+Print Assumptions C19_log_of_transactions.
+
+(* the record carries the transaction id, the transaction's (well-formed) parts and exactly the fired
+   rules that are audit-enabled, in firing order: once per matched value with part K, once per rule
+   (data-less, error message only) with H and no K, nothing when neither part is asked for *)
+Theorem C19_record_content : forall (rel : bytes -> bool) c x r,
+  wf_parts (c_parts c) = true ->
+  In r (o_records (run_tx rel c x)) ->
+  let t := run_phases c x in
+  rc_id r = x_id x
+  /\ rc_parts r = t_parts t
+  /\ wf_parts (rc_parts r) = true
+  /\ (au_mem au_K (rc_parts r) = true -> map m_rule (rc_msgs r) = audit_ids_per_value (t_matched t))
+  /\ (au_mem au_K (rc_parts r) = false -> au_mem au_H (rc_parts r) = true ->
+        map m_rule (rc_msgs r) = audit_ids (t_matched t))
+  /\ (au_mem au_K (rc_parts r) = false -> au_mem au_H (rc_parts r) = false -> rc_msgs r = []).
+Proof. exact record_content. Qed.
+Print Assumptions C19_record_content.
+
+(* what "fired" means: every recorded match is a rule of the rule set, with that rule's flags, and the
+   matches are an order-preserving selection of the rules phase by phase (so each rule at most once) *)
+Theorem C19_fired_rules : forall c x,
+  (forall f, In f (t_matched (run_phases c x)) -> exists r, In r (x_rules x) /\ f = fired_of c r)
+  /\ sublist (map f_id (t_matched (run_phases c x))) (map r_id (phase_order (x_rules x)))
+  /\ t_audit (run_phases c x) = existsb f_audit (t_matched (run_phases c x)).
+Proof.
+  intros c x. split; [intros f; apply matched_are_rules|].
+  split; [apply matched_in_phase_order | apply audit_flag_of_tx].
+Qed.
+Print Assumptions C19_fired_rules.
+
+(* the error callback fires for exactly the fired rules with logging enabled, in firing order, and at most
+   once per rule *)
+Theorem C19_error_callback_once : forall (rel : bytes -> bool) c x,
+  o_cbs (run_tx rel c x) = (if c_cb c then map f_id (filter f_log (t_matched (run_phases c x))) else [])
+  /\ (NoDup (map r_id (x_rules x)) -> NoDup (o_cbs (run_tx rel c x))).
+Proof. intros rel c x. split; [apply callbacks_of_tx | apply callbacks_nodup]. Qed.
+Print Assumptions C19_error_callback_once.
+
+(* log / nolog / auditlog / noauditlog: the last action wins; the documented combinations *)
+Theorem C19_log_flags : forall l,
+  flags_of (l ++ [LLog]) = (true, true)
+  /\ flags_of (l ++ [LNolog]) = (false, false)
+  /\ flags_of (l ++ [LAuditlog]) = (fst (flags_of l), true)
+  /\ flags_of (l ++ [LNoauditlog]) = (fst (flags_of l), false).
+Proof. exact flags_last_wins. Qed.
+Print Assumptions C19_log_flags.
+
+(* native format: well-formed parts render as the A boundary with the id line, one section per part in
+   order, the Z boundary last; no part twice *)
+Theorem C19_native_balanced : forall pre l,
+  wf_parts (al_parts l) = true ->
+  exists mid,
+    al_parts l = au_A :: mid ++ [au_Z]
+    /\ format_native pre l
+       = boundary pre au_A ++ a_line l ++ flat_map (section pre l) mid ++ boundary pre au_Z ++ [nl]
+    /\ NoDup (al_parts l).
+Proof. exact native_balanced. Qed.
+Print Assumptions C19_native_balanced.
+
+(* ... and a reader splitting the record on its own boundary finds exactly the parts, in order, whatever
+   bytes the headers / bodies / messages hold, as long as no content line is itself a boundary line *)
+Theorem C19_native_scan : forall pre l,
+  nl_free pre = true ->
+  (forall p, In p (al_parts l) -> (p =? nl)%N = false) ->
+  (forall f, al_files l = Some f -> aligned f) ->
+  (forall p, In p (al_parts l) -> clean pre (chunk l p)) ->
+  scan_lines pre (format_native pre l) = al_parts l.
+Proof. exact scan_format_native. Qed.
+Print Assumptions C19_native_scan.
+
+(* parts algebra: SecAuditLogParts values that parse are well-formed, the default is well-formed, an
+   accepted ctl:auditLogParts leaves well-formed parts whatever the base, hence the parts of a
+   transaction stay well-formed through any rule set *)
+Theorem C19_parts_algebra :
+  (forall s ps, parse_parts s = Some ps -> ps = s /\ wf_parts s = true)
+  /\ wf_parts default_parts = true
+  /\ (forall base m ps, ctl_parts base m = Some ps -> wf_parts ps = true)
+  /\ (forall c x, wf_parts (c_parts c) = true -> wf_parts (t_parts (run_phases c x)) = true).
+Proof.
+  split; [exact parse_parts_some|]. split; [exact wf_default_parts|].
+  split; [exact ctl_parts_wf | exact run_phases_wf].
+Qed.
+Print Assumptions C19_parts_algebra.
+
+(* the bare types.ApplyAuditLogParts leaves A and Z implicit (its behaviour is pinned by the suite):
+   well-formedness is NOT preserved by it alone; ctl.go re-attaches them (the F23 repair) *)
+Theorem C19_parts_algebra_bare_refuted :
+  exists base m ps, wf_parts base = true /\ apply_parts base m = Some ps /\ wf_parts ps = false.
+Proof. exact apply_parts_not_wf. Qed.
+Print Assumptions C19_parts_algebra_bare_refuted.
+
+(* writers: any schedule of the atomic appends of G writers leaves a file that reads back, line by line,
+   as a permutation of all the records, whole; each writer's records keep their order *)
+Theorem C19_whole_records : forall (ls : list (list bytes)) out,
+  interleave ls out ->
+  Forall (fun r => nl_free r = true) (concat ls) ->
+  Permutation (split_lines [] (file_of out)) (concat ls)
+  /\ (forall l, In l ls -> sublist l out).
+Proof.
+  intros ls out Hi Hf. split; [apply whole_records; assumption | apply interleave_order; exact Hi].
+Qed.
+Print Assumptions C19_whole_records.
+
+(* contrast: a writer that appends record and newline separately tears records under some schedule *)
+Theorem C19_chunked_writer_refuted :
+  exists (r1 r2 : bytes) out,
+    nl_free r1 = true /\ nl_free r2 = true
+    /\ interleave [chunks_of r1; chunks_of r2] out
+    /\ ~ Permutation (split_lines [] (concat out)) [r1; r2].
+Proof. exact chunked_writer_tears. Qed.
+Print Assumptions C19_chunked_writer_refuted.
